@@ -57,6 +57,10 @@ func digest(tag byte, kind byte, data []byte, domain []byte) *vSig {
 	return s
 }
 
+// c06AttAsked counts, per account tag, the attestation signatures the signer service asked the account
+// (or the remote signer on its behalf) for during the run.
+var c06AttAsked [8]int
+
 // accBase: identity only.
 type accBase struct {
 	tag     byte
@@ -74,6 +78,7 @@ func (a *accPlain) Sign(_ context.Context, data []byte) (e2types.Signature, erro
 	if a.signErr {
 		return nil, errors.New("mock sign error")
 	}
+	c06AttAsked[a.tag&7]++
 	return digest(a.tag, kindPlain, data, nil), nil
 }
 
@@ -133,6 +138,7 @@ func (a *accMulti) SignBeaconAttestation(_ context.Context, slot, committee uint
 	if a.signErr {
 		return nil, errors.New("mock sign error")
 	}
+	c06AttAsked[a.tag&7]++
 	return attDigest(a.tag, slot, committee, blockRoot, sourceEpoch, sourceRoot, targetEpoch, targetRoot, domain), nil
 }
 func (a *accMulti) SignBeaconAttestations(_ context.Context, slot uint64, accounts []e2wtypes.Account, committees []uint64, blockRoot []byte, sourceEpoch uint64, sourceRoot []byte, targetEpoch uint64, targetRoot []byte, domain []byte) ([]e2types.Signature, error) {
@@ -141,6 +147,7 @@ func (a *accMulti) SignBeaconAttestations(_ context.Context, slot uint64, accoun
 	}
 	res := make([]e2types.Signature, len(accounts))
 	for i := range accounts {
+		c06AttAsked[tagOf(accounts[i])&7]++
 		if a.nilSigFor[tagOf(accounts[i])] {
 			continue
 		}
@@ -266,9 +273,16 @@ func expectedGeneric(tag byte, plain bool, root phase0.Root, domain phase0.Domai
 
 // ndAccounts builds n accounts: each distributed or ordinary; ordinary accounts
 // are all plain or all remote multi-signers.
-func ndAccounts(n int) ([]e2wtypes.Account, []bool, bool) {
+// At most one of them (any position) is refused by the remote signer: its entry of the answer is nil
+// (a slashing protection denial, a key that is not available); refused[i] says which.
+func ndAccounts(n int) ([]e2wtypes.Account, []bool, bool, []bool) {
 	ordinaryPlain := vnd.Bool("ordinary.plain")
 	nilFor := map[byte]bool{}
+	refused := make([]bool, n)
+	if r := vnd.Choose("signer.refuses.account", n+1); r > 0 {
+		nilFor[byte(r)] = true
+		refused[r-1] = true
+	}
 	accs := make([]e2wtypes.Account, n)
 	dist := make([]bool, n)
 	for i := 0; i < n; i++ {
@@ -279,11 +293,12 @@ func ndAccounts(n int) ([]e2wtypes.Account, []bool, bool) {
 			accs[i] = &accDist{accMulti{accBase: accBase{tag: tag}, nilSigFor: nilFor}}
 		case ordinaryPlain:
 			accs[i] = &accPlain{accBase{tag: tag}}
+			refused[i] = false // a local account signs itself
 		default:
 			accs[i] = &accMulti{accBase: accBase{tag: tag}, nilSigFor: nilFor}
 		}
 	}
-	return accs, dist, ordinaryPlain
+	return accs, dist, ordinaryPlain, refused
 }
 
 func le32(v uint64) phase0.Root {
@@ -300,9 +315,10 @@ func VerifC06_Attestations3() { c06Attestations(3) }
 func VerifC06_Attestations4() { c06Attestations(4) }
 
 func c06Attestations(n int) {
+	c06AttAsked = [8]int{}
 	d := &vDomains{}
 	s := c06Service(d)
-	accs, dist, plain := ndAccounts(n)
+	accs, dist, plain, refused := ndAccounts(n)
 	slot := phase0.Slot(vnd.U64("slot"))
 	comms := make([]phase0.CommitteeIndex, n)
 	for i := range comms {
@@ -318,6 +334,11 @@ func c06Attestations(n int) {
 	copy(askedAccs, accs)
 	sigs, err := s.SignBeaconAttestations(context.Background(), accs, slot, comms, blockRoot, sourceEpoch, sourceRoot, targetEpoch, targetRoot)
 	vnd.Assert(err == nil && len(sigs) == n, "C06.attestations.ok")
+	for i := 0; i < n; i++ {
+		// one request to sign an attestation per account and call (C01: at most one attestation signature
+		// per validator and epoch - a second request for the same data is a second signature asked for)
+		vnd.Assert(c06AttAsked[(i+1)&7] == 1, "C01.signer.one-attestation-signature-asked-per-account")
+	}
 	comms, accs = asked, askedAccs
 	vnd.Assert(len(d.calls) >= 1, "C06.attestations.domain-fetched")
 	for _, c := range d.calls {
@@ -333,6 +354,11 @@ func c06Attestations(n int) {
 			want = expectedGeneric(byte(i+1), true, root, domain)
 		} else {
 			copy(want[:], attDigest(byte(i+1), uint64(slot), uint64(comms[i]), blockRoot[:], uint64(sourceEpoch), sourceRoot[:], uint64(targetEpoch), targetRoot[:], domain[:]).b[:])
+		}
+		if refused[i] {
+			// the signer produced nothing for this account: nothing may stand in its place
+			vnd.Assert(sigs[i] == phase0.BLSSignature{}, "C06.attestations.no-signature-in-the-place-of-a-refused-account")
+			continue
 		}
 		vnd.Assert(sigs[i] == want, "C06.attestations.ith-signature-is-ith-accounts-over-its-own-message")
 	}
@@ -350,7 +376,7 @@ func VerifC06_Roots4() { c06Roots(4) }
 func c06Roots(n int) {
 	d := &vDomains{}
 	s := c06Service(d)
-	accs, dist, plain := ndAccounts(n)
+	accs, dist, plain, refused := ndAccounts(n)
 	slot := phase0.Slot(vnd.U64("slot"))
 	which := vnd.Choose("function", 4)
 	var sigs []phase0.BLSSignature
@@ -397,6 +423,10 @@ func c06Roots(n int) {
 	domain := mkDomain(dt, epoch, false)
 	for i := 0; i < n; i++ {
 		want := expectedGeneric(byte(i+1), !dist[i] && plain, roots[i], domain)
+		if refused[i] {
+			vnd.Assert(sigs[i] == phase0.BLSSignature{}, "C06.roots.no-signature-in-the-place-of-a-refused-account")
+			continue
+		}
 		vnd.Assert(sigs[i] == want, "C06.roots.ith-signature-is-ith-accounts-over-its-own-root")
 	}
 	vnd.Cover("C06.roots.checked")
